@@ -151,6 +151,55 @@ Section Fr.
     intros n Hn. rewrite H. apply (flush_fr S s Ho n Hn).
   Qed.
 
+  (* ---- a handle without write access never writes ---- *)
+  Lemma load_ext_mw s n : mw (snd (load_ext bad s n)) = mw s.
+  Proof. unfold load_ext. destruct (rd_ext bad s n); reflexivity. Qed.
+
+  Lemma read_next_mw s : mw (snd (read_next bs ofs bad s)) = mw s.
+  Proof.
+    unfold read_next.
+    set (P := if ndb s =? 0 then _ else _).
+    assert (HP : mw (snd (fst P)) = mw s).
+    { subst P. destruct (ndb s =? 0); [reflexivity|]. destruct (ndb s <? MAXDB); [reflexivity|].
+      set (Q := if ndb s =? MAXDB then _ else _).
+      assert (HQ : mw (snd Q) = mw s).
+      { subst Q. destruct (ndb s =? MAXDB).
+        - rewrite load_ext_mw. destruct (cext s); reflexivity.
+        - destruct (pinx s =? MAXDB); [apply load_ext_mw|reflexivity]. }
+      destruct Q as (okx, sx). destruct okx; exact HQ. }
+    destruct P as ((ok1, s1), nt). cbn [fst snd] in HP. destruct ok1; cbn [negb]; [|exact HP].
+    destruct (_ <? 2); [exact HP|]. destruct (rd_data bs bad s1 _); exact HP.
+  Qed.
+
+  Lemma read_loop_ro : forall fuel s n, mw s = false -> dk (fst (read_loop bs ofs bad fuel s n)) = dk s.
+  Proof.
+    induction fuel as [|f IH]; intros s n Hw; [reflexivity|]. cbn [read_loop].
+    destruct (n <=? 0); [reflexivity|].
+    set (P := if pind s =? bs then _ else (true, s)).
+    assert (HP : dk (snd P) = dk s /\ mw (snd P) = false).
+    { subst P. destruct (pind s =? bs); [|split; [reflexivity|exact Hw]]. rewrite Hw. cbn [andb].
+      pose proof (read_next_dk s) as H1. pose proof (read_next_mw s) as H2.
+      destruct (read_next bs ofs bad s) as (okn, sn). cbn [snd] in H1, H2. destruct okn; cbn; rewrite ?H1, ?H2; split; congruence. }
+    destruct P as (ok, s1). cbn [snd] in HP. destruct HP as (H1 & H2). destruct ok; cbn [negb]; [|exact H1].
+    set (s2 := set_pind _ _).
+    specialize (IH s2 (n - Z.min n (bs - pind s1)) H2).
+    destruct (read_loop bs ofs bad f s2 _) as (s3, rest). cbn [fst] in *. rewrite IH. exact H1.
+  Qed.
+
+  Theorem readonly_handle_never_writes s : mw s = false ->
+    (forall n, dk (fst (fio_read bs ofs bad s n)) = dk s) /\ (forall p, dk (snd (fio_seek bs ofs bad s p)) = dk s)
+    /\ (forall data al, fio_write bs ofs bad s data al = (s, 0, al)) /\ (forall n al, fio_truncate bs ofs bad s n al = (false, s, [], al))
+    /\ fio_flush bs ofs s = s /\ fio_close bs ofs s = dk s.
+  Proof.
+    intros Hw. split; [|split; [|split; [|split; [|split]]]].
+    - intros n. unfold fio_read. destruct (_ || _); [reflexivity|]. apply read_loop_ro, Hw.
+    - intros p. apply fio_seek_quiet. unfold quiet. rewrite Hw. reflexivity.
+    - intros data al. unfold fio_write. rewrite Hw. reflexivity.
+    - intros n al. unfold fio_truncate. rewrite Hw. reflexivity.
+    - unfold fio_flush. rewrite Hw. reflexivity.
+    - unfold fio_close, fio_flush. rewrite Hw. reflexivity.
+  Qed.
+
   (* ---- adfFileCreateNextBlock: the two blocks it may write ---- *)
   Lemma finish_create_dk s nSect n : (bs <= pos s -> n <> cur s) -> dk (finish_create bs ofs s nSect) n = dk s n.
   Proof.
